@@ -17,6 +17,7 @@ import (
 	"sort"
 	"strconv"
 	"strings"
+	"syscall"
 	"time"
 )
 
@@ -207,8 +208,56 @@ func execC17(sc *Scenario, env *Env) *Result {
 		res.Status, res.Note = "invalid", "generator: the simulator would read another number of lines"
 		return res
 	}
-	sizeOut, err1 := runCalc("-size", fmt.Sprint(K), "-batch", bf)
-	listOut, err2 := runCalc("-list", fmt.Sprint(K), "-batch", bf)
+	calcBatch := bf
+	var feed func() func()
+	if sc.Params["fifo"] == "1" {
+		// the calculator reads the batch file through a named pipe whose writer delivers it in two pieces with a pause in
+		// between (a file that arrives over a pipe, a slow network file system): a read may return less than was asked for
+		// although more follows
+		calcBatch = filepath.Join(root, "batch.fifo")
+		syscall.Mkfifo(calcBatch, 0o600)
+		cut := len(content) / 2
+		if len(content) > 40000 {
+			cut = 33000 // just past the first 32 KiB chunk
+		}
+		feed = func() func() {
+			done := make(chan struct{})
+			go func() {
+				defer close(done)
+				f, err := os.OpenFile(calcBatch, os.O_WRONLY, 0)
+				if err != nil {
+					return
+				}
+				f.Write([]byte(content[:cut]))
+				time.Sleep(60 * time.Millisecond)
+				f.Write([]byte(content[cut:]))
+				f.Close()
+			}()
+			return func() {
+				select {
+				case <-done:
+				case <-time.After(5 * time.Second):
+					// nobody opened the pipe for reading: open it ourselves so that the writer gets unstuck
+					if r, err := os.OpenFile(calcBatch, os.O_RDONLY|syscall.O_NONBLOCK, 0); err == nil {
+						r.Close()
+					}
+					<-done
+				}
+			}
+		}
+		res.add("fault.batch-file-delivered-through-a-pipe-in-pieces", 1)
+	}
+	runFed := func(args ...string) (string, error) {
+		if feed == nil {
+			return runCalc(args...)
+		}
+		wait := feed()
+		out, err := runCalc(args...)
+		wait()
+		return out, err
+	}
+	sizeOut, err1 := runFed("-size", fmt.Sprint(K), "-batch", calcBatch)
+	listOut, err2 := runFed("-list", fmt.Sprint(K), "-batch", calcBatch)
 	if err1 != nil || err2 != nil {
 		viol("calculator", "calculator-failed", fmt.Sprintf("calculator exited with an error: %v %v %s %s", err1, err2, sizeOut, listOut))
 		res.Status = "violation"
@@ -501,6 +550,9 @@ func init() {
 			if r.Bool(0.25) {
 				sc.Params["hist"] = "1"
 			}
+			if r.Bool(0.2) {
+				sc.Params["fifo"] = "1"
+			}
 			if r.Bool(0.3) {
 				sc.Params["nodefault"] = r.PickS([]string{"kill", "rewrite"})
 				if sc.Params["nodefault"] == "rewrite" && idx >= bound*bound {
@@ -533,7 +585,7 @@ func init() {
 		Chunk:      12,
 		NonTrivial: func(res *Result) bool { return res.Stats["nodes.run"] > 1 },
 		Rule:       "one (lines, nodes) pair per evaluation: exhaustive over 1..12 x 1..12 (thorough: 1..40 x 1..40) plus random pairs up to 2000 lines and 64 nodes; the batch file is generated with LF, CRLF or mixed endings, optional blank lines, optional missing final line break, optionally one line of 4-60 KiB, and in a quarter of the scenarios the calculator has been run before on another batch file of the same name (the present one moved into place with an older modification time); the real calculator binary (built from the tree) is run as a child process for -size and -list; each printed range is executed by a simulated node: a fresh session running the shipped dispatcher under the seeded scheduler with the indices main() derives from -lines a-b, on the lines main() would read; oracles: number of ranges = reported array size, ranges contiguous from 1 to the last line, multiset of executed log ids = every non-empty line exactly once; non-trivial = more than one node ran",
-		ReachKeys:  []string{"nodes.run", "reach.more-nodes-than-lines", "reach.remainder", "reach.line-end-on-buffer-edge", "reach.batch-file-above-32k", "nodes.without-logoutput", "nodes.real-binary-without-logoutput", "reach.mixed-line-endings", "reach.line-longer-than-4k", "reach.witness-lines", "fault.calculator-ran-before-on-another-file-of-this-name", "fault.node-killed-and-range-started-again", "fault.batch-file-rewritten-in-place-during-the-job"},
+		ReachKeys:  []string{"nodes.run", "reach.more-nodes-than-lines", "reach.remainder", "reach.line-end-on-buffer-edge", "reach.batch-file-above-32k", "nodes.without-logoutput", "nodes.real-binary-without-logoutput", "reach.mixed-line-endings", "reach.line-longer-than-4k", "reach.witness-lines", "fault.calculator-ran-before-on-another-file-of-this-name", "fault.node-killed-and-range-started-again", "fault.batch-file-rewritten-in-place-during-the-job", "fault.batch-file-delivered-through-a-pipe-in-pieces"},
 		Assumptions: []string{
 			"the scheduled nodes use a re-implementation of main()'s flag parsing and batch-file reading (stub); every scenario with at most 64 ranges is therefore executed a second time through the shipped simulator binary with real -batch/-lines flags (unscheduled) and judged by the same exactly-once oracle",
 			"lines are cheap failing lines (missing project argument) so that thousands of node runs fit in the budget; their log ids are read from the dispatcher's own output",
